@@ -8,17 +8,29 @@ A case is a program-as-data (JSON) in one of two dialects, both interpreted by `
               shares one Python IR node k times; lambda bodies are nested op lists that see the enclosing pool plus the
               lambda variables (shared sub-expressions inside / outside / across lambdas, nested lambdas);
   mode 'ir'   an SSA op list over hail.ir constructors with *named* binders (StreamMap/Filter/Fold, Let, AggLet,
-              AggFilter, AggExplode, AggGroupBy, ApplyAggOp, ApplyScanOp, StreamAgg, StreamAggScan) closed into a
+              AggFilter, AggExplode, AggGroupBy, AggArrayPerElement, ApplyAggOp, ApplyScanOp, StreamAgg, StreamAggScan) closed into a
               TableAggregate / TableMapRows / plain value root; entries carry their own free-variable bookkeeping
               (written from the engine's binding rules) so that every generated DAG is well scoped.
+Both dialects have a *share* op ('ashare' / 'qshare', also appended as the case's 'tail' so that it is an output): ONE
+aggregation entry (an ApplyAggOp / ApplyScanOp object or an expression containing one) is used once per generated chain
+of row-set context nodes (filter / explode / group-by / per-element / agg-let; the empty chain is the bare use), the uses
+are added or tupled and optionally wrapped again: the same object inside vs outside a filter, inside two different
+filters, under nested filters, inside explode / group-by / per-element vs outside, agg and scan.  The class labels
+agg_shared_* / scan_shared_* are computed from the built DAG (one ApplyAggOp/ApplyScanOp object reached under two
+different context chains), not from the generator's intent.
 
 Oracle: render the root with CSERenderer() and PlainRenderer(); read both texts (vlib.irtools); then
   scope    every Ref of the CSE text resolves (engine binding rules, eval/agg/scan environments); no __cse_N is bound
            twice on a path; every inserted let's value has all its variables bound at the insertion point; and in-lining
            the value at each use resolves every variable to the *same binder* (no capture, no scope change);
+  aggctx   an inserted let whose value aggregates (scans) is bound under exactly the chain of row-set context nodes
+           (AggFilter / AggExplode / AggGroupBy / AggArrayPerElement below the same aggregation root) of each of its uses
+           -- a let above a filter read inside it would hand the unfiltered result to the filtered use;
   subst    erasing the inserted lets by substitution gives exactly the plain tree;
   eval     both trees evaluate to the same value in a reference interpreter (NaN == NaN, missing propagates, local and
-           table aggregations interpreted over explicit row lists; scans are not evaluated) under several environments.
+           table aggregations and scans interpreted over explicit row lists: a filter narrows the row list, explode /
+           per-element / group-by re-bind and split it, row i of a scan sees rows 0..i-1) under several environments; a
+           let lifted across a context node is reported once, with both values in the message.
 """
 from __future__ import annotations
 
@@ -34,17 +46,27 @@ PROPERTY = 'C35'
 LEVEL = 'translation_validation'
 RULE = ('IR DAGs with shared Python node objects: (api) SSA op lists over the expression API with nested lambda bodies that '
         'see the enclosing pool; (ir) SSA op lists over hail.ir constructors with named binders and aggregation/scan '
-        'nodes closed into TableAggregate/TableMapRows/value roots. Each DAG is rendered with CSERenderer and '
+        'nodes closed into TableAggregate/TableMapRows/value roots; both with share ops that use ONE aggregation object '
+        'under several chains of row-set contexts (inside/outside a filter, two filters, nested filters, explode, group-by, '
+        'per-element, agg and scan; api: hl.agg/hl.scan query programs under array.aggregate, Table.aggregate, scan '
+        'annotation). Each DAG is rendered with CSERenderer and '
         'PlainRenderer, both texts are read back, scope-checked with binder identity under the engine binding rules, the '
-        'inserted lets are erased by substitution and compared with the plain tree, and both are evaluated by a reference '
-        'interpreter under 3 environments. Non-trivial: the CSE text has >=1 inserted let whose value uses a variable bound '
-        'by a lambda/let binder, or that lies in (or binds into) an agg/scan scope; distinct by canonical program.')
+        'inserted lets that aggregate must sit under the same chain of AggFilter/AggExplode/AggGroupBy/AggArrayPerElement '
+        'nodes as each use, the inserted lets are erased by substitution and compared with the plain tree, and both are '
+        'evaluated by a reference interpreter (aggregations and scans over explicit row lists) under 3 environments. '
+        'Non-trivial: the CSE text has >=1 inserted let whose value uses a variable bound by a lambda/let binder, or that '
+        'lies in (or binds into) an agg/scan scope, or the DAG shares one aggregation object across different row-set '
+        'contexts (classes agg_shared_* / scan_shared_*); distinct by canonical program.')
 ASSUMPTIONS = [
     'the reference interpreter is total: integer division by zero and out-of-range indexing yield missing, so the strictness '
     'of a lifted let with respect to run-time errors (loop-invariant hoisting out of an empty loop) is outside the property',
     'integers wrap at 64 bits in the interpreter regardless of their Hail width; only equality of the two renderings matters',
     'Apply functions without a rule are interpreted as a deterministic typed hash of their arguments',
-    'scan aggregations (ApplyScanOp, StreamAggScan, TableMapRows scans) are scope- and substitution-checked, not evaluated',
+    'aggregators are Sum / Count / Collect / Take; a scan at row (element) i aggregates rows (elements) 0..i-1; '
+    'AggArrayPerElement aggregates position j over the rows whose array has a position j; group-by results are compared as '
+    'key-ordered association lists',
+    'the index variable of AggArrayPerElement is never referenced by generated ir-mode programs (engine and hail.ir disagree '
+    'on whether it is bound in the agg scope; that is a binding-table matter, not a CSE matter)',
     'the binding structure of each node kind is the engine\'s (Binds.scala / Env.scala), transcribed in vlib/irtools.py',
 ]
 TRUSTED = ['vlib/irtools.py reader + binding table (transcribed from Binds.scala/Env.scala)',
@@ -278,7 +300,109 @@ class ApiBuilder:
                 r = hl.agg.sum(seq(x))
                 return r if extra is None else r + extra
             return a.aggregate(q)
+        if k == 'aggq':      # a.aggregate(lambda x: <query program over shared aggregator objects>)
+            a = P(op[1], self.is_numarr)
+            self.st['api_aggq'] = 1
+            return a.aggregate(lambda x: self.query(op[2], x, pool, depth + 1, hl.agg))
         raise _Skip(f'unknown op {k}')
+
+    # ---- aggregation queries over the public aggregator API (hl.agg / hl.scan)
+    def query(self, spec, x, pool, depth, A):
+        """spec = {'ops': [...], 'ret': [...]}: an SSA program whose entries are *aggregated* expressions (objects).  x is
+        the numeric per-row expression (array element / row field).  Per-row operands are built from x (codes below) or by
+        a nested op-list body over the enclosing pool plus x; aggregated operands are indices into the query's own pool,
+        so one aggregator object can be used inside hl.agg.filter / explode / group_by / array_agg and outside.  The
+        eval part of the query uses aggregated entries only (the known StreamAgg finding needs an outer variable there)."""
+        hl = self.hl
+        ap = []
+        agg_num = lambda e: self.is_num(e.dtype)      # noqa: E731
+
+        def row(r):      # per-row numeric expression
+            if isinstance(r, dict):
+                return self.body(r, pool, depth, self.is_num)(x)
+            r = int(r)
+            return [x, x * x, x + hl.int32(r), hl.int32(r) - x][r % 4]
+
+        def arr(r):      # per-row array; its elements share one per-row node
+            e = row(r)
+            return hl.array([e, e]) if isinstance(r, dict) or int(r) % 2 == 0 else hl.array([e, e + hl.int32(1), e])
+
+        def cond(w):
+            e, lit = row(w[1]), hl.int32(int(w[2]))
+            return e > lit if w[3] else e < lit
+
+        def Q(i, pred=None):
+            c = [e for e in ap if pred is None or pred(e)]
+            if not c:
+                return A.count() if pred is None or pred is agg_num else A.collect(x)
+            return c[-1 - (i % len(c))]
+
+        def wrap(w, body):
+            kind = w[0]
+            if kind == 'f':
+                return A.filter(cond(w), body)
+            if kind == 'e':
+                return A.explode(lambda y: body, arr(w[1]))
+            if kind == 'g':
+                return A.group_by(row(w[1]), body)
+            return A.array_agg(lambda y: body, arr(w[1]))
+
+        qops, qret = list(spec.get('ops', [])), list(spec.get('ret', [0]))
+        if spec.get('tail'):      # a final sharing shape that is always the first output
+            qops, qret = qops + [spec['tail']], [0] + qret
+        for op in qops:
+            k = op[0]
+            try:
+                if k == 'qsum':
+                    e = A.sum(row(op[1]))
+                elif k == 'qcount':
+                    e = A.count()
+                elif k == 'qcollect':
+                    e = A.collect(row(op[1]))
+                elif k in ('qfilter', 'qexplode', 'qgroup', 'qarray'):
+                    e = wrap([k[1]] + list(op[2:]), Q(op[1]))
+                elif k == 'qbin':
+                    a, b = Q(op[2], agg_num), Q(op[3], agg_num)
+                    e = a + b if op[1] == '+' else a * b
+                elif k == 'qtup':
+                    e = hl.tuple([Q(i) for i in op[1]])
+                elif k == 'qshare':      # one aggregated entry used once per chain of context wrappers, then combined
+                    xq = Q(op[1])
+                    uses = []
+                    for chain in op[2]:
+                        u = xq
+                        for w in chain:
+                            u = wrap(w, u)
+                        uses.append(u)
+                    if not op[4] and all(agg_num(u) for u in uses):
+                        e = uses[0]
+                        for u in uses[1:]:
+                            e = e + u
+                    else:
+                        e = hl.tuple(uses)
+                    for w in op[3]:
+                        e = wrap(w, e)
+                else:
+                    raise _Skip(f'unknown query op {k}')
+            except _Skip:
+                self.st['skipped'] += 1
+                continue
+            except (TypeError, ValueError, AssertionError, KeyError, AttributeError, NotImplementedError, IndexError) as ex:
+                self.st['skipped'] += 1
+                self.st['rejected'] += 1
+                self.st.setdefault('reject_types', {}).setdefault(type(ex).__name__, 0)
+                self.st['reject_types'][type(ex).__name__] += 1
+                continue
+            except Exception as ex:
+                if type(ex).__module__.startswith('hail'):
+                    self.st['skipped'] += 1
+                    self.st['rejected'] += 1
+                    continue
+                raise
+            self.st['ops'] += 1
+            ap.append(e)
+        rets = [Q(r) for r in qret] or [Q(0)]
+        return rets[0] if len(rets) == 1 else hl.tuple(rets)
 
 
 def build_api(case, guard):
@@ -288,6 +412,16 @@ def build_api(case, guard):
     pool = [construct_variable(f'fv{i}', _hl_type(hl, t)) for i, t in enumerate(case.get('free', []))]
     pool.append(hl.int32(1))
     b.run(case.get('ops', []), pool, 0)
+    tb = case.get('table')
+    if tb:      # Table.aggregate / Table.annotate(scan) of a query program over the row field of a range table
+        from hail import ir
+        t = hl.utils.range_table(2 + int(tb.get('n', 3)) % 4)
+        scan = bool(tb.get('scan'))
+        q = b.query(tb['q'], t.idx, pool, 1, hl.scan if scan else hl.agg)
+        b.st['api_scan_root' if scan else 'api_table_root'] = 1
+        if scan:
+            return ir.TableMapRows(t._tir, t.row.annotate(z=q)._ir), b.st
+        return ir.TableAggregate(t._tir, q._ir), b.st
     rs = case.get('roots', [0])
     if case.get('all_roots'):      # every top-level entry is an output: nothing built at top level is dead
         roots = pool[len(case.get('free', [])) + 1:] or [pool[-1]]
@@ -303,6 +437,7 @@ def build_api(case, guard):
 # =================================================================================================================
 
 NAMES = ['x0', 'x1', 'x2']
+INDEX_NAME = 'ix'      # index binder of AggArrayPerElement (never referenced)
 
 
 class E:
@@ -398,7 +533,8 @@ class IrBuilder:
         if k == 'tup':
             es = [P(i, 'iabo') for i in op[1]]
             return _join('o', ir.MakeTuple([e.ir for e in es]), *es)
-        scan = bool(op[-1]) if k in ('asum', 'acount', 'acollect', 'atake', 'afilter', 'aexplode', 'agroup', 'alet') else False
+        scan = bool(op[-1]) if k in ('asum', 'acount', 'acollect', 'atake', 'afilter', 'aexplode', 'agroup', 'alet', 'aape',
+                                     'ashare') else False
         App = ir.ApplyScanOp if scan else ir.ApplyAggOp
 
         def lifted(e):       # the eval-free names of an argument evaluated in the agg (scan) environment
@@ -406,11 +542,6 @@ class IrBuilder:
 
         def has(e):
             return e.scan if scan else e.agg
-
-        def ctx(e, bound=frozenset(), extra=frozenset()):      # names of e's agg/scan env after binding, plus extra
-            if scan:
-                return dict(fe=e.fe, fa=e.fa, fs=(e.fs - bound) | extra, agg=e.agg, scan=True)
-            return dict(fe=e.fe, fa=(e.fa - bound) | extra, fs=e.fs, agg=True, scan=e.scan)
 
         if k == 'asum':
             a = P(op[1], 'i', pure)
@@ -425,17 +556,17 @@ class IrBuilder:
             d = lifted(a)
             return E(App('Take', [ir.Cast(n.ir, hl.tint32)], [a.ir]), 'a', fe=n.fe, **d)
         if k == 'afilter':
-            c, body = P(op[1], 'b', pure), P(op[2], 'iabo', has)
-            return E(ir.AggFilter(c.ir, body.ir, scan), body.ty, **ctx(body, extra=c.fe))
+            return self.w_filter(P(op[1], 'b', pure), P(op[2], 'iabo', has), scan)
         if k == 'aexplode':
-            a, n, body = P(op[1], 'a', pure), nm(op[2]), P(op[3], 'iabo', has)
-            return E(ir.AggExplode(ir.ToStream(a.ir), n, body.ir, scan), body.ty, **ctx(body, {n}, a.fe))
+            return self.w_explode(P(op[1], 'a', pure), nm(op[2]), P(op[3], 'iabo', has), scan)
         if k == 'agroup':
-            key, body = P(op[1], 'i', pure), P(op[2], 'iabo', has)
-            return E(ir.AggGroupBy(key.ir, body.ir, scan), 'o', **ctx(body, extra=key.fe))
+            return self.w_group(P(op[1], 'i', pure), P(op[2], 'iabo', has), scan)
         if k == 'alet':
-            n, v, body = nm(op[1]), P(op[2], 'i', pure), P(op[3], 'iabo', has)
-            return E(ir.AggLet(n, v.ir, body.ir, scan), body.ty, **ctx(body, {n}, v.fe))
+            return self.w_let(nm(op[1]), P(op[2], 'i', pure), P(op[3], 'iabo', has), scan)
+        if k == 'aape':
+            return self.w_perelt(P(op[1], 'a', pure), nm(op[2]), P(op[3], 'iabo', has), scan)
+        if k == 'ashare':
+            return self.share(op, pool, scan)
         if k == 'sagg':
             a, n = P(op[1], 'a', pure), nm(op[2])
             q = P(op[3], 'iabo', lambda e: e.agg and not e.scan and not e.fs)
@@ -453,6 +584,97 @@ class IrBuilder:
             return E(ir.ToArray(ir.StreamAggScan(ir.ToStream(a.ir), n, q.ir)), 'a',
                      fe=a.fe | (q.fe - {n}) | (q.fs - {n}))
         raise _Skip(f'unknown op {k}')
+
+    # ---- aggregation-context wrappers (row-set boundaries) with the free-name bookkeeping of their body
+    @staticmethod
+    def _ctx(e, scan, bound=frozenset(), extra=frozenset()):
+        """bookkeeping of a context node around e: `bound` leaves e's agg (scan) names, `extra` (the eval names of an
+        operand evaluated per row) joins them"""
+        if scan:
+            return dict(fe=e.fe, fa=e.fa, fs=(e.fs - bound) | extra, agg=e.agg, scan=True)
+        return dict(fe=e.fe, fa=(e.fa - bound) | extra, fs=e.fs, agg=True, scan=e.scan)
+
+    def w_filter(self, c, body, scan):
+        return E(self.ir.AggFilter(c.ir, body.ir, scan), body.ty, **self._ctx(body, scan, extra=c.fe))
+
+    def w_explode(self, a, n, body, scan):
+        return E(self.ir.AggExplode(self.ir.ToStream(a.ir), n, body.ir, scan), body.ty, **self._ctx(body, scan, {n}, a.fe))
+
+    def w_group(self, key, body, scan):
+        return E(self.ir.AggGroupBy(key.ir, body.ir, scan), 'o', **self._ctx(body, scan, extra=key.fe))
+
+    def w_let(self, n, v, body, scan):
+        return E(self.ir.AggLet(n, v.ir, body.ir, scan), body.ty, **self._ctx(body, scan, {n}, v.fe))
+
+    def w_perelt(self, a, n, body, scan):
+        # the element name n joins the agg (scan) scope of the body.  The index name is never referenced: the engine binds
+        # it in the eval AND the agg (scan) scope of the body, hail.ir only in the eval scope, so a generated reference to it
+        # from a per-row expression would mean different things to the two (not a CSE matter; excluded by construction)
+        return E(self.ir.AggArrayPerElement(a.ir, n, INDEX_NAME, body.ir, scan), 'a' if body.ty == 'i' else 'o',
+                 **self._ctx(body, scan, {n}, a.fe))
+
+    def share(self, op, pool, scan):
+        """['ashare', x, chains, outer, combine, scan]: ONE aggregation entry X (an ApplyAggOp/ApplyScanOp or any entry
+        containing one) is used once per chain, each use wrapped in its own chain of context nodes (filter / explode /
+        group-by / per-element / agg-let; an empty chain is the bare use); the uses are combined (sum when all are
+        integers and combine is 0, else a tuple) and `outer` wraps the combination (nested contexts)."""
+        ir, t64 = self.ir, self.t64
+        pure = lambda e: e.pure      # noqa: E731
+        nm = lambda i: NAMES[i % len(NAMES)]      # noqa: E731
+
+        def P(i, ty, pred, make):
+            c = [e for e in pool if e.ty in ty and pred(e)]
+            return c[-1 - (i % len(c))] if c else make()
+
+        def rowidx():
+            return E(ir.Cast(ir.GetField(self.row, 'idx'), t64), 'i', fe={'row'})
+
+        def some_i(i):
+            return P(i, 'i', pure, rowidx)
+
+        def some_arr(i):
+            def make():
+                a, b = some_i(i), some_i(i + 1)
+                return _join('a', ir.MakeArray([a.ir, b.ir], self.hl.tarray(t64)), a, b)
+            return P(i, 'a', pure, make)
+
+        def fresh_agg():
+            a = some_i(op[1])
+            App = ir.ApplyScanOp if scan else ir.ApplyAggOp
+            return E(App('Sum', [], [a.ir]), 'i', **(dict(fs=a.fe, scan=True) if scan else dict(fa=a.fe, agg=True)))
+
+        def wrap(w, body):
+            kind = w[0]
+            if kind == 'f':      # w[2] None: an existing condition entry (shared between filters); else `entry < literal`
+                c = P(w[1], 'b', pure, lambda: None) if w[2] is None else None
+                if c is None:
+                    a = some_i(w[1])
+                    c = _join('b', ir.ApplyComparisonOp('<', a.ir, ir.I64(int(w[2] or 0))), a)
+                return self.w_filter(c, body, scan)
+            if kind == 'e':
+                return self.w_explode(some_arr(w[1]), nm(w[2]), body, scan)
+            if kind == 'g':
+                return self.w_group(some_i(w[1]), body, scan)
+            if kind == 'p':
+                return self.w_perelt(some_arr(w[1]), nm(w[2]), body, scan)
+            return self.w_let(nm(w[2]), some_i(w[1]), body, scan)
+
+        x = P(op[1], 'iabo', (lambda e: e.scan) if scan else (lambda e: e.agg), fresh_agg)
+        uses = []
+        for chain in op[2]:
+            u = x
+            for w in chain:
+                u = wrap(w, u)
+            uses.append(u)
+        if not op[4] and all(u.ty == 'i' for u in uses):
+            e = uses[0]
+            for u in uses[1:]:
+                e = _join('i', ir.ApplyBinaryPrimOp('+', e.ir, u.ir), e, u)
+        else:
+            e = _join('o', ir.MakeTuple([u.ir for u in uses]), *uses)
+        for w in op[3]:
+            e = wrap(w, e)
+        return e
 
     def close(self, e, target):
         """wrap `e` so that the root is closed: returns (root BaseIR, root kind)"""
@@ -490,8 +712,11 @@ def build_ir(case, guard):
     b = IrBuilder(guard)
     ir = b.ir
     pool = [E(ir.I64(1), 'i')]
-    b.run(case.get('ops', []), pool)
-    picks = [pool[-1 - (r % len(pool))] for r in case.get('roots', [0])] or [pool[-1]]
+    ops, roots = case.get('ops', []), case.get('roots', [0])
+    if case.get('tail'):      # a final op (a sharing shape) that is always the first output
+        ops, roots = list(ops) + [case['tail']], [0] + list(roots)
+    b.run(ops, pool)
+    picks = [pool[-1 - (r % len(pool))] for r in roots] or [pool[-1]]
     try:
         e = picks[0] if len(picks) == 1 else _join('o', ir.MakeTuple([p.ir for p in picks]), *picks)
     except _Skip:
@@ -663,7 +888,8 @@ def _agg_op(op, init, cols, nrows, rtype_hint):
 
 
 def ev(n: Node, env, rows):
-    """value of node n; env: eval environment; rows: list of per-row agg environments or None"""
+    """value of node n; env: eval environment; rows: None or (agg rows, scan rows), each a list of per-row environments or
+    None when there is no such context"""
     k, c, h = n.kind, n.children, n.head
     if k in ('I32', 'I64'):
         return int(h[0])
@@ -805,7 +1031,8 @@ def ev(n: Node, env, rows):
         return _apply_fn(str(h[1]), [ev(x, env, rows) for x in c], h[3])
     if k == 'RNGStateLiteral':
         return ('rng',)
-    # ---- aggregations over explicit row lists
+    # ---- aggregations and scans over explicit row lists; rows = (agg rows, scan rows), either may be None
+    A, S = rows if rows is not None else (None, None)
     if k == 'StreamAgg':
         a = ev(c[0], env, rows)
         if a is None:
@@ -816,48 +1043,79 @@ def ev(n: Node, env, rows):
             r = dict(env)
             r[nm] = x
             rs.append(r)
-        return ev(c[1], env, rs)
-    if k == 'TableAggregate':
+        return ev(c[1], env, (rs, S))
+    if k == 'StreamAggScan':      # element j sees the elements before it as its scan rows
+        a = ev(c[0], env, rows)
+        if a is None:
+            return None
+        nm = str(h[0])
+        rs, out = [], []
+        for x in a:
+            r = dict(env)
+            r[nm] = x
+            out.append(ev(c[1], r, (A, list(rs))))
+            rs.append(r)
+        return out
+    if k in ('TableAggregate', 'TableMapRows'):
         nrow = int(c[0].head[0]) if c[0].kind == 'TableRange' else None
         if nrow is None:
-            raise EvalGap('TableAggregate child')
+            raise EvalGap(k + ' child')
         rs = [{'global': {}, 'row': {'idx': i}} for i in range(nrow)]
-        return ev(c[1], {'global': {}}, rs)
-    if k == 'ApplyAggOp':
-        if rows is None:
-            raise Unbound('<agg context>')
+        if k == 'TableAggregate':
+            return ev(c[1], {'global': {}}, (rs, None))
+        return [ev(c[1], rs[i], (None, rs[:i])) for i in range(nrow)]      # row i scans the rows before it
+    if k in ('ApplyAggOp', 'ApplyScanOp'):
+        rws = A if k == 'ApplyAggOp' else S
+        if rws is None:
+            raise Unbound('<agg context>' if k == 'ApplyAggOp' else '<scan context>')
         ni = n.extra
         init = [ev(x, env, None) for x in c[:ni]]
-        cols = [[ev(x, r, None) for r in rows] for x in c[ni:]]
-        return _agg_op(str(h[0]), init, cols, len(rows), 'Int64')
-    if k in ('AggFilter', 'AggExplode', 'AggGroupBy', 'AggLet'):
-        scan = str(h[-1]) == 'True'
-        if scan:
-            raise EvalGap('scan')
-        if rows is None:
-            raise Unbound('<agg context>')
+        cols = [[ev(x, r, None) for r in rws] for x in c[ni:]]
+        return _agg_op(str(h[0]), init, cols, len(rws), 'Int64')
+    if k in ('AggFilter', 'AggExplode', 'AggGroupBy', 'AggLet', 'AggArrayPerElement'):
+        scan = str(h[{'AggArrayPerElement': 2}.get(k, -1)]) == 'True'
+        rws = S if scan else A
+        if rws is None:
+            raise Unbound('<scan context>' if scan else '<agg context>')
+        sub = (lambda rs: (A, rs)) if scan else (lambda rs: (rs, S))      # the narrowed / re-bound row set of the body
         if k == 'AggFilter':
-            return ev(c[1], env, [r for r in rows if ev(c[0], r, None) is True])
+            return ev(c[1], env, sub([r for r in rws if ev(c[0], r, None) is True]))
         if k == 'AggLet':
             rs = []
-            for r in rows:
+            for r in rws:
                 r2 = dict(r)
                 r2[str(h[0])] = ev(c[0], r, None)
                 rs.append(r2)
-            return ev(c[1], env, rs)
+            return ev(c[1], env, sub(rs))
         if k == 'AggExplode':
             rs = []
-            for r in rows:
+            for r in rws:
                 for x in (ev(c[0], r, None) or []):
                     r2 = dict(r)
                     r2[str(h[0])] = x
                     rs.append(r2)
-            return ev(c[1], env, rs)
+            return ev(c[1], env, sub(rs))
+        if k == 'AggArrayPerElement':      # result j aggregates, over the rows whose array has an element j, with it bound
+            arrs = [(r, ev(c[0], r, None)) for r in rws]
+            arrs = [(r, a) for r, a in arrs if isinstance(a, list)]
+            out = []
+            for j in range(max([len(a) for _, a in arrs] or [0])):
+                rs = []
+                for r, a in arrs:
+                    if j < len(a):
+                        r2 = dict(r)
+                        r2[str(h[0])] = a[j]
+                        r2[str(h[1])] = j
+                        rs.append(r2)
+                e2 = dict(env)
+                e2[str(h[1])] = j
+                out.append(ev(c[1], e2, sub(rs)))
+            return out
         groups = {}
-        for r in rows:
+        for r in rws:
             kv = ev(c[0], r, None)
             groups.setdefault(repr(canon(kv)), (kv, []))[1].append(r)
-        return [(kv, ev(c[1], env, rs)) for _, (kv, rs) in sorted(groups.items())]
+        return [(kv, ev(c[1], env, sub(rs))) for _, (kv, rs) in sorted(groups.items())]
     raise EvalGap(k)
 
 
@@ -887,7 +1145,9 @@ def env_value(t, v):
 # =================================================================================================================
 
 AGG_CONTEXT_KINDS = {'StreamAgg', 'StreamAggScan', 'ApplyAggOp', 'ApplyScanOp', 'AggFilter', 'AggExplode', 'AggGroupBy',
-                     'AggLet', 'TableAggregate', 'TableMapRows'}
+                     'AggArrayPerElement', 'AggLet', 'TableAggregate', 'TableMapRows'}
+# nodes whose child 1 aggregates over a different row set than the node itself (value: index of the is-scan head item)
+ROWSET_KINDS = {'AggFilter': 0, 'AggGroupBy': 0, 'AggExplode': 1, 'AggArrayPerElement': 2}
 
 
 def _val(node, i, name):
@@ -903,6 +1163,8 @@ def _switches(node, i):
         return 'scan' if str(node.head[0]) == 'True' else 'agg'
     if k == 'AggExplode' and i == 0:
         return 'scan' if str(node.head[1]) == 'True' else 'agg'
+    if k == 'AggArrayPerElement' and i == 0:
+        return 'scan' if str(node.head[2]) == 'True' else 'agg'
     if k == 'ApplyAggOp' and i >= node.extra:
         return 'agg'
     if k == 'ApplyScanOp' and i >= node.extra:
@@ -957,6 +1219,50 @@ def _via_name(root, name):
     return go(root, '-') or '?'
 
 
+def _aggregates(value, letctx):
+    """(uses the enclosing agg context, uses the enclosing scan context): an ApplyAggOp / ApplyScanOp, a non-scan / scan
+    context node, or a reference to an inserted let that does, occurs in `value` outside the query of a StreamAgg /
+    StreamAggScan (which has its own context)"""
+    res = [False, False]
+
+    def go(n, a_ok, s_ok):
+        k = n.kind
+        if k == 'Ref':
+            inner = letctx.get(str(n.head[0]))
+            if inner:
+                res[0] = res[0] or (inner[0] and a_ok)
+                res[1] = res[1] or (inner[1] and s_ok)
+        elif k == 'ApplyAggOp' and a_ok:
+            res[0] = True
+        elif k == 'ApplyScanOp' and s_ok:
+            res[1] = True
+        elif k in ROWSET_KINDS:
+            scan = str(n.head[ROWSET_KINDS[k]]) == 'True'
+            if scan and s_ok:
+                res[1] = True
+            elif not scan and a_ok:
+                res[0] = True
+        if res[0] and res[1] or irtools.is_new_scope_root(k) or k in ('TableAggregate', 'MatrixAggregate'):
+            return
+        for i, ch in enumerate(n.children):
+            if k == 'StreamAgg' and i == 1:
+                go(ch, False, s_ok)
+            elif k == 'StreamAggScan' and i == 1:
+                go(ch, a_ok, False)
+            else:
+                go(ch, a_ok, s_ok)
+    go(value, True, True)
+    return tuple(res)
+
+
+def _chain_diff(c1, c2):
+    """the context nodes two chains do not share: (kinds only in c1, kinds only in c2, kinds of the common prefix)"""
+    p = 0
+    while p < len(c1) and p < len(c2) and c1[p] == c2[p]:
+        p += 1
+    return [x[1] for x in c1[p:]], [x[1] for x in c2[p:]], [x[1] for x in c1[:p]]
+
+
 class ScopeReport:
     def __init__(self):
         self.fails = []          # (signature, clause, message)
@@ -977,6 +1283,8 @@ CL_SCOPE = 'every Ref in the CSE text resolves to a binder in the same eval/agg/
 CL_TWICE = 'no inserted let name is bound twice on one path'
 CL_LETFV = 'every inserted let value has all its variables bound at the insertion point'
 CL_SAME = 'in-lining an inserted let at each use resolves every variable to the same binder'
+CL_AGGCTX = ('every inserted let whose value aggregates (scans) is bound under exactly the chain of row-set context nodes '
+             '(AggFilter / AggExplode / AggGroupBy / AggArrayPerElement) of each of its uses')
 CL_SUBST = 'erasing the inserted lets by substitution yields the plain rendering'
 CL_EVAL = 'the CSE rendering and the plain rendering evaluate to the same value'
 CL_RENDER = 'the renderer produces a text for every well-scoped DAG'
@@ -1005,7 +1313,7 @@ def scope_check(root: Node, top: Env) -> ScopeReport:
         elif scope == 'scan':
             rep.lets_scanlet += 1
         elif in_ctx or (irtools.kinds_of(value).keys() & {'ApplyAggOp', 'ApplyScanOp', 'AggFilter', 'AggExplode',
-                                                           'AggGroupBy'}):
+                                                           'AggGroupBy', 'AggArrayPerElement'}):
             rep.lets_in_agg += 1
 
     bound_anywhere = set()
@@ -1019,7 +1327,9 @@ def scope_check(root: Node, top: Env) -> ScopeReport:
             collect(ch)
     collect(root)
 
-    def walk(n, env, path, in_ctx, quiet=False, block='-'):
+    letctx = {}      # inserted eval let -> (aggregates, scans, agg chain, scan chain) at its insertion point
+
+    def walk(n, env, path, in_ctx, quiet=False, block='-', chains=((), ())):
         k = n.kind
         if k == 'Ref':
             rep.refs += 1
@@ -1036,6 +1346,15 @@ def scope_check(root: Node, top: Env) -> ScopeReport:
                 rep.fail(f'unbound-ref:{where}:{kind}', CL_SCOPE,
                          f'(Ref {name}) has no binder in its {where} environment (bound names: {sorted(env.e)})')
                 return
+            if is_cse(name) and name in letctx:
+                for which, word in ((0, 'agg'), (1, 'scan')):
+                    if letctx[name][which] and letctx[name][2 + which] != chains[which]:
+                        only_let, only_use, _ = _chain_diff(letctx[name][2 + which], chains[which])
+                        via = (only_use or only_let)[0]
+                        rep.fail(f'lifted-across-{word}-context:via={via}', CL_AGGCTX,
+                                 f'the value of inserted Let {name} {"aggregates" if which == 0 else "scans"} and is bound '
+                                 f'under the context chain {[x[1] for x in letctx[name][2 + which]]} but used under '
+                                 f'{[x[1] for x in chains[which]]}: the use reads the result over a different row set')
             if is_cse(name) and name in lets:
                 value, R1 = lets[name]
                 R2 = irtools.resolve_refs(value, env, [], _val)
@@ -1075,15 +1394,28 @@ def scope_check(root: Node, top: Env) -> ScopeReport:
                              f'variable that is not bound where the let was inserted')
                 lets[name] = (ch, R1)
                 classify(name, R1, in_ctx, ch, scope)
+                if scope == 'eval':
+                    letctx[name] = _aggregates(ch, letctx) + chains
             if cse_let and i == 1:
                 cpath = path | {cse_let[0]}
-            walk(ch, ce, cpath, cctx, cquiet, k if _new_block(n, i) else block)
+            cch = chains
+            if k in ROWSET_KINDS and i == 1:
+                link = ((id(n), k),)
+                cch = (chains[0], chains[1] + link) if str(n.head[ROWSET_KINDS[k]]) == 'True' else (chains[0] + link, chains[1])
+            elif k == 'StreamAgg' and i == 1:
+                cch = (((id(n), k),), chains[1])
+            elif k == 'StreamAggScan' and i == 1:
+                cch = (chains[0], ((id(n), k),))
+            elif irtools.is_new_scope_root(k) or k in ('TableAggregate', 'MatrixAggregate'):
+                cch = (((id(n), k),), ((id(n), k),))
+            walk(ch, ce, cpath, cctx, cquiet, k if _new_block(n, i) else block, cch)
 
     walk(root, top, frozenset(), None)
     return rep
 
 
-_PRIORITY = ['let-value-unbound', 'unbound-ref', 'no-context', 'cse-bound-twice', 'inline-resolves-differently']
+_PRIORITY = ['let-value-unbound', 'unbound-ref', 'no-context', 'cse-bound-twice', 'lifted-across-agg-context',
+             'lifted-across-scan-context', 'inline-resolves-differently']
 
 
 def _primary(fails):
@@ -1128,20 +1460,104 @@ def first_diff(a: Node, b: Node, path=''):
 # =================================================================================================================
 
 def site_reused(root):
-    """True when some node *object* occurs at one depth both as the root of a let-insertion block (If branch, agg
-    init argument, StreamAgg query, relational child) and in an ordinary position.  The renderer records insertion
-    sites by (id(node), depth), so the two occurrences are confused (known finding 'site-reused')."""
+    """True when some node *object* occurs at one depth in two positions that differ as let-insertion sites.  The renderer
+    records insertion sites by (id(node), depth), so the two occurrences are confused (known finding 'site-reused'):
+      (a) once as the root of a let-insertion block (If branch, agg init argument, StreamAgg query, relational child) and
+          once in an ordinary position;
+      (b) once as the child for which its parent binds names (a lambda / let body; the aggregation of an AggFilter /
+          AggExplode / AggArrayPerElement / StreamAgg, which bind the aggregation capability) and once in a position that
+          binds a different set of names (or none), while the node has a descendant that is reached twice inside it and
+          uses one of those names (only then can lets be inserted at the node)."""
     from hail.ir.base_ir import BaseIR
     occ = {}
+    nodes = {}
 
-    def go(n, depth, blk):
-        rec = occ.setdefault(id(n), {}).setdefault(depth, [0, 0])
-        rec[0 if blk else 1] += 1
+    def go(n, depth, pos):
+        occ.setdefault(id(n), {}).setdefault(depth, set()).add(pos)
+        nodes[id(n)] = n
         for i, c in enumerate(n.children):
             if isinstance(c, BaseIR):
-                go(c, depth + 1, bool(n.new_block(i)))
-    go(root, 0, False)
-    return any(r[0] and r[1] for d in occ.values() for r in d.values())
+                go(c, depth + 1, (bool(n.new_block(i)), frozenset(n.bindings(i, 0)), frozenset(n.agg_bindings(i, 0)),
+                                  frozenset(n.scan_bindings(i, 0))))
+    go(root, 0, (False, frozenset(), frozenset(), frozenset()))
+
+    def shared_inside(n):      # non-Ref descendants of n reached twice inside n
+        seen, twice = set(), {}
+
+        def walk(m):
+            for c in m.children:
+                if isinstance(c, BaseIR):
+                    if id(c) in seen:
+                        if not isinstance(c, _env()[1].Ref):
+                            twice[id(c)] = c
+                        continue
+                    seen.add(id(c))
+                    walk(c)
+        walk(n)
+        return list(twice.values())
+
+    for nid, by_depth in occ.items():
+        for poss in by_depth.values():
+            if len(poss) < 2:
+                continue
+            if len({p[0] for p in poss}) == 2:
+                return True
+            names = [p[1:] for p in poss if any(p[1:])]
+            if names:      # a let can be inserted at the node only for a shared descendant that uses a name bound for it
+                for d in shared_inside(nodes[nid]):
+                    if any((e & set(d.free_vars)) or (a & set(d.free_agg_vars)) or (sc & set(d.free_scan_vars))
+                           for e, a, sc in names):
+                        return True
+    return False
+
+
+def agg_share_classes(root):
+    """class labels of a DAG in which one ApplyAggOp / ApplyScanOp *object* is reached under two different chains of
+    row-set context nodes (AggFilter / AggExplode / AggGroupBy / AggArrayPerElement below one aggregation root)"""
+    from hail.ir.base_ir import BaseIR
+    ir = _env()[1]
+    kinds = {ir.AggFilter: 'filter', ir.AggExplode: 'explode', ir.AggGroupBy: 'groupby', ir.AggArrayPerElement: 'array_agg'}
+    occ, seen = {}, set()
+
+    def go(n, ach, sch):
+        if (id(n), ach, sch) in seen:
+            return
+        seen.add((id(n), ach, sch))
+        if isinstance(n, ir.ApplyAggOp):
+            occ.setdefault(id(n), ('agg', set()))[1].add(ach)
+        elif isinstance(n, ir.ApplyScanOp):
+            occ.setdefault(id(n), ('scan', set()))[1].add(sch)
+        t = kinds.get(type(n))
+        for i, c in enumerate(n.children):
+            if not isinstance(c, BaseIR):
+                continue
+            a2, s2 = ach, sch
+            if t and i == 1:
+                a2, s2 = (ach, sch + ((id(n), t),)) if n.is_scan else (ach + ((id(n), t),), sch)
+            elif isinstance(n, ir.StreamAgg) and i == 1:
+                a2 = ((id(n), 'root'),)
+            elif isinstance(n, ir.StreamAggScan) and i == 1:
+                s2 = ((id(n), 'root'),)
+            elif not isinstance(n, ir.IR) or isinstance(n, (ir.TableAggregate, ir.MatrixAggregate)):
+                a2 = s2 = ((id(n), 'root'),)
+            go(c, a2, s2)
+    go(root, (), ())
+    labels = set()
+    for word, chains in occ.values():
+        chains = sorted(chains)[:6]
+        for x in range(len(chains)):
+            for y in range(x + 1, len(chains)):
+                only1, only2, common = _chain_diff(chains[x], chains[y])
+                labels.add(f'{word}_shared_across_contexts')
+                if only1 and only2:
+                    labels.add(f'{word}_shared_two_filters' if 'filter' in only1 and 'filter' in only2
+                               else f'{word}_shared_two_contexts')
+                for kind in set(only1 + only2) if not (only1 and only2) else ():
+                    labels.add(f'{word}_shared_across_{kind}')
+                for side in (only1, only2):
+                    if side.count('filter') >= 2 or ('filter' in side and 'filter' in common):
+                        labels.add(f'{word}_shared_nested_filters')
+    return sorted(labels)
 
 
 def _tag_site_reused(fails):
@@ -1149,7 +1565,8 @@ def _tag_site_reused(fails):
     for sig, cl, msg in fails:
         cat = sig
         for c in ('cse-raises:AssertionError', 'cse-raises:KeyError', 'let-value-unbound', 'unbound-ref', 'subst-mismatch',
-                  'eval-differs', 'eval-unbound', 'inline-resolves-differently', 'cse-bound-twice', 'no-context'):
+                  'lifted-across-agg-context', 'lifted-across-scan-context', 'eval-differs', 'eval-unbound',
+                  'inline-resolves-differently', 'cse-bound-twice', 'no-context'):
             if sig.startswith(c):
                 cat = c
                 break
@@ -1187,6 +1604,11 @@ def check_case(case, guard=None, guard2=None):
         classes.append('has_lambda')
     if st.get('max_depth', 0) >= 2:
         classes.append('nested_lambda')
+    for key in ('api_aggq', 'api_table_root', 'api_scan_root'):
+        if st.get(key):
+            classes.append(key)
+    shared = agg_share_classes(root)
+    classes.extend(shared)
     plain = PlainRenderer()(root)
     try:
         cse = CSERenderer()(root)
@@ -1217,34 +1639,38 @@ def check_case(case, guard=None, guard2=None):
     if er.key() != pn.key() and not fails:      # an unbound / misplaced let is already reported; this would be its echo
         fails.append(('subst-mismatch', CL_SUBST, 'after erasing the inserted lets the CSE tree differs from the plain tree '
                       + str(first_diff(er, pn))))
-    # evaluation
-    kinds = irtools.kinds_of(pn)
+    # evaluation (aggregations and scans over explicit row lists)
     evaluated = False
-    if not (kinds.keys() & {'ApplyScanOp', 'StreamAggScan', 'TableMapRows'}):
-        envs = case.get('envs') or [[]]
-        ftypes = case.get('free', []) if case.get('mode') == 'api' else []
-        for row in envs[:3]:
-            env0 = {f'fv{i}': env_value(t, (row[i] if i < len(row) else 1)) for i, t in enumerate(ftypes)}
-            try:
-                want = canon(ev(pn, env0, None))
-            except EvalGap as ex:
-                classes.append('eval_gap')
-                classes.append(f'eval_gap:{ex}')
-                break
-            except RecursionError:
-                classes.append('eval_gap')
-                break
-            evaluated = True
-            if rep.fails:        # a mis-scoped let is already reported; its consequences are not separate findings
-                break
-            try:
-                got = canon(ev(cn, env0, None))
-            except Unbound as ex:
+    ctx_only = bool(fails) and all(f[0].startswith('lifted-across-') for f in fails)
+    envs = case.get('envs') or [[]]
+    ftypes = case.get('free', []) if case.get('mode') == 'api' else []
+    for row in envs[:3]:
+        env0 = {f'fv{i}': env_value(t, (row[i] if i < len(row) else 1)) for i, t in enumerate(ftypes)}
+        try:
+            want = canon(ev(pn, env0, None))
+        except EvalGap as ex:
+            classes.append('eval_gap')
+            classes.append(f'eval_gap:{ex}')
+            break
+        except RecursionError:
+            classes.append('eval_gap')
+            break
+        evaluated = True
+        if rep.fails and not ctx_only:      # a mis-scoped let is already reported; its consequences are not separate findings
+            break
+        try:
+            got = canon(ev(cn, env0, None))
+        except Unbound as ex:
+            if not ctx_only:
                 fails.append(('eval-unbound', CL_EVAL, f'evaluating the CSE text: variable {ex} is unbound; plain value {want!r}'))
-                break
-            if got != want:
+            break
+        if got != want:
+            if ctx_only:      # the same defect, judged by value as well: one finding, the values join its message
+                fails = [(sg, cl, m + f'; CSE text evaluates to {got!r}, plain text to {want!r} under {env0!r}')
+                         for sg, cl, m in fails]
+            else:
                 fails.append(('eval-differs', CL_EVAL, f'CSE text evaluates to {got!r}, plain text to {want!r} under {env0!r}'))
-                break
+            break
     classes.append('evaluated' if evaluated else 'not_evaluated')
     if rep.lets:
         classes.append('has_inserted_let')
@@ -1253,7 +1679,7 @@ def check_case(case, guard=None, guard2=None):
     for attr in ('lets_lambda', 'lets_userlet', 'lets_agglet', 'lets_scanlet', 'lets_in_agg'):
         if getattr(rep, attr):
             classes.append(attr)
-    nontrivial = bool(rep.lets_lambda or rep.lets_userlet or rep.lets_agglet or rep.lets_scanlet or rep.lets_in_agg)
+    nontrivial = bool(rep.lets_lambda or rep.lets_userlet or rep.lets_agglet or rep.lets_scanlet or rep.lets_in_agg or shared)
     if fails:
         if reused:
             fails = _tag_site_reused(fails)
@@ -1294,6 +1720,36 @@ def _strategies():
     small = st.integers(-3, 6)
     tnames = st.sampled_from(['i32', 'i32', 'i64', 'f64', 'bool', 'str'])
 
+    def query(depth):
+        """query programs over aggregator objects (ApiBuilder.query)"""
+        code = st.integers(0, 7)
+        if depth < 3:
+            rowx = st.one_of(code, code, code, st.deferred(lambda: st.fixed_dictionaries(
+                {'ops': api_ops(depth + 1, 3, 1), 'ret': st.sampled_from([0, 0, 1])})))
+        else:
+            rowx = code
+        lit = st.integers(-1, 4)
+        flt = st.tuples(st.just('f'), rowx, lit, st.booleans())
+        wrapper = st.one_of(flt, flt, flt, st.tuples(st.just('e'), rowx), st.tuples(st.just('g'), rowx),
+                            st.tuples(st.just('a'), rowx))
+        chain = st.lists(wrapper, min_size=0, max_size=2)
+        chains = st.tuples(st.lists(wrapper, min_size=1, max_size=2), chain).map(list).flatmap(
+            lambda two: st.lists(chain, min_size=0, max_size=1).map(lambda more: two + more))
+        qshare = st.tuples(st.just('qshare'), idx, chains, st.lists(wrapper, min_size=0, max_size=1), st.sampled_from([0, 0, 1]))
+        base = st.one_of(st.tuples(st.just('qsum'), rowx), st.tuples(st.just('qsum'), rowx), st.tuples(st.just('qcount')),
+                         st.tuples(st.just('qcollect'), rowx))
+        ctxop = st.one_of(st.tuples(st.just('qfilter'), idx, rowx, lit, st.booleans()),
+                          st.tuples(st.just('qfilter'), idx, rowx, lit, st.booleans()),
+                          st.tuples(st.just('qexplode'), idx, rowx), st.tuples(st.just('qgroup'), idx, rowx),
+                          st.tuples(st.just('qarray'), idx, rowx))
+        comb = st.one_of(st.tuples(st.just('qbin'), st.sampled_from(['+', '*']), idx, idx),
+                         idx.flatmap(lambda i: st.tuples(st.just('qbin'), st.sampled_from(['+', '*']), st.just(i), st.just(i))),
+                         st.tuples(st.just('qtup'), st.lists(idx, min_size=2, max_size=3)))
+        return st.fixed_dictionaries({
+            'ops': st.lists(st.one_of(base, base, ctxop, ctxop, comb, comb, qshare, qshare), min_size=1, max_size=7),
+            'ret': st.lists(st.sampled_from([0, 0, 1, 2, 3]), min_size=1, max_size=3),
+            'tail': st.one_of(st.none(), qshare, qshare)})
+
     def api_ops(depth, max_ops, min_ops=1):
         body = st.deferred(lambda: st.fixed_dictionaries({'ops': api_ops(depth + 1, 6, 2), 'ret': st.sampled_from([0, 0, 0, 1, 2])}))
         core = st.one_of(
@@ -1321,6 +1777,7 @@ def _strategies():
             st.tuples(st.just('tget'), idx, idx), st.tuples(st.just('concat'), idx, idx), st.tuples(st.just('tostr'), idx),
         )
         dup = idx.flatmap(lambda i: st.tuples(st.just('bin'), st.sampled_from(['+', '*', '-']), st.just(i), st.just(i)))
+        aggq = st.tuples(st.just('aggq'), idx, query(depth + 1))
         alts = [core, core, core, core, rare] + ([dup, dup] if depth > 0 else [dup])
         if depth < 3:
             lam = st.one_of(
@@ -1331,6 +1788,7 @@ def _strategies():
                 st.tuples(st.just('bind'), st.tuples(idx, idx), body), st.tuples(st.just('rbind'), idx, body),
                 st.tuples(st.just('flatmap'), idx, body),
                 st.tuples(st.just('aggregate'), idx, body, st.one_of(st.none(), idx)),
+                aggq, aggq,
             )
             alts = alts + ([lam, lam] if depth == 0 else [lam])
         return st.lists(st.one_of(*alts), min_size=min_ops, max_size=max_ops)
@@ -1344,6 +1802,13 @@ def _strategies():
             'all_roots': st.booleans(),
             'envs': st.lists(st.lists(st.one_of(st.none(), st.integers(-7, 7)), min_size=3, max_size=3), min_size=3,
                              max_size=3),
+        })
+
+    def table_case(max_ops):      # Table.aggregate / scan annotation of a query program (closed top-level pool)
+        return st.fixed_dictionaries({
+            'mode': st.just('api'), 'free': st.just([]), 'ops': api_ops(1, max(2, max_ops // 4), 0),
+            'table': st.fixed_dictionaries({'n': st.integers(0, 3), 'scan': st.sampled_from([False, False, True]),
+                                            'q': query(1)}),
         })
 
     sc = st.sampled_from([0, 0, 0, 1])
@@ -1367,8 +1832,18 @@ def _strategies():
         st.tuples(st.just('acollect'), idx, sc), st.tuples(st.just('atake'), idx, idx, sc),
         st.tuples(st.just('afilter'), idx, idx, sc), st.tuples(st.just('aexplode'), idx, idx, idx, sc),
         st.tuples(st.just('agroup'), idx, idx, sc), st.tuples(st.just('alet'), idx, idx, idx, sc),
+        st.tuples(st.just('aape'), idx, idx, idx, sc),
     )
-    ir_op = st.one_of(glue, glue, glue, binders, binders, aggs, aggs)
+    # one aggregation entry used under several different chains of row-set context nodes
+    lit = st.one_of(st.none(), st.integers(0, 4))
+    flt = st.tuples(st.just('f'), idx, lit)
+    wrapper = st.one_of(flt, flt, flt, st.tuples(st.just('e'), idx, idx), st.tuples(st.just('g'), idx),
+                        st.tuples(st.just('p'), idx, idx), st.tuples(st.just('l'), idx, idx))
+    chain = st.lists(wrapper, min_size=0, max_size=2)
+    chains = st.tuples(st.lists(wrapper, min_size=1, max_size=2), chain).map(list).flatmap(
+        lambda two: st.lists(chain, min_size=0, max_size=1).map(lambda more: two + more))
+    share = st.tuples(st.just('ashare'), idx, chains, st.lists(wrapper, min_size=0, max_size=1), st.sampled_from([0, 0, 1]), sc)
+    ir_op = st.one_of(glue, glue, glue, binders, binders, aggs, aggs, share)
 
     def ir_case(max_ops):
         return st.fixed_dictionaries({
@@ -1376,9 +1851,10 @@ def _strategies():
             'ops': st.lists(ir_op, min_size=3, max_size=max_ops),
             'roots': st.lists(st.integers(0, 5), min_size=1, max_size=3),
             'target': st.sampled_from(['aggregate', 'aggregate', 'maprows', 'value']),
+            'tail': st.one_of(st.none(), share),
         })
 
-    return api_case, ir_case
+    return (lambda m: st.one_of(api_case(m), api_case(m), api_case(m), table_case(m))), ir_case
 
 
 def _jsonable(case):
@@ -1422,6 +1898,34 @@ SEED_CASES = [
     {'mode': 'ir', 'roots': [0, 1, 2], 'target': 'aggregate',
      'ops': [['row'], ['add', 0, 1], ['asum', 0, 0], ['mul', 1, 1], ['asum', 0, 0], ['cmp', 1, 2], ['afilter', 0, 0, 0],
              ['arr', 2, 2], ['r', 0], ['mul', 0, 0], ['asum', 0, 0], ['add', 0, 0], ['aexplode', 0, 0, 0, 0]]},
+    # one aggregator object under different row-set contexts (public API, Table.aggregate / scan annotation / array.aggregate):
+    # s = hl.agg.sum(t.idx); hl.agg.filter(t.idx > 1, s) + s
+    {'mode': 'api', 'free': [], 'ops': [], 'table': {'n': 3, 'scan': False, 'q': {
+        'ops': [['qsum', 0], ['qshare', 0, [[['f', 0, 1, True]], []], [], 0]], 'ret': [0]}}},
+    # n = hl.agg.count(); (filter(idx > 1, n), filter(idx*idx < 2, n), n) and the same below an outer filter (nested)
+    {'mode': 'api', 'free': [], 'ops': [], 'table': {'n': 2, 'scan': False, 'q': {
+        'ops': [['qcount'], ['qshare', 0, [[['f', 0, 1, True]], [['f', 1, 2, False]], []], [['f', 2, 3, False]], 1]], 'ret': [0]}}},
+    # explode / group_by / array_agg against the bare use; scan variant
+    {'mode': 'api', 'free': [], 'ops': [], 'table': {'n': 3, 'scan': False, 'q': {
+        'ops': [['qsum', 1], ['qshare', 0, [[['e', 1]], [['g', 0]], []], [], 1], ['qshare', 1, [[['a', 3]], []], [], 1]],
+        'ret': [0, 1]}}},
+    {'mode': 'api', 'free': [], 'ops': [], 'table': {'n': 3, 'scan': True, 'q': {
+        'ops': [['qcount'], ['qsum', 0], ['qbin', '+', 0, 1], ['qshare', 0, [[['f', 0, 0, True]], [['e', 1]], []], [], 0]],
+        'ret': [0]}}},
+    {'mode': 'api', 'free': ['ai32'], 'envs': _E3, 'roots': [0],
+     'ops': [['aggq', 0, {'ops': [['qsum', 0], ['qcount'], ['qbin', '*', 0, 1],
+                                  ['qshare', 0, [[['f', 0, 2, False]], [['f', 1, 3, True], ['g', 0]], []], [], 0]], 'ret': [0]}]]},
+    # the same through hail.ir constructors, agg and scan, with per-element / agg-let contexts
+    {'mode': 'ir', 'roots': [0], 'target': 'aggregate', 'ops': [['row'], ['asum', 0, 0]],
+     'tail': ['ashare', 0, [[['f', 0, 2], ['p', 0, 1]], [['e', 0, 0]], []], [['f', 0, 3]], 0, 0]},
+    {'mode': 'ir', 'roots': [0], 'target': 'maprows', 'ops': [['row'], ['acount', 1], ['asum', 0, 1], ['add', 0, 1]],
+     'tail': ['ashare', 0, [[['f', 0, 2]], [['g', 0], ['l', 0, 1]], []], [], 1, 1]},
+    # site-reused through the aggregation capability (no new block involved): y = s + s is a let-insertion site as the
+    # aggregation of a filter and occurs at the same depth outside it:
+    # s = hl.agg.sum(t.idx); y = s + s; t.aggregate(hl.tuple([hl.agg.filter(t.idx > 1, y), y * s, y + s]))
+    {'mode': 'api', 'free': [], 'ops': [], 'table': {'n': 3, 'scan': False, 'q': {
+        'ops': [['qsum', 0], ['qbin', '+', 0, 0], ['qfilter', 0, 0, 1, True], ['qbin', '*', 1, 2], ['qbin', '+', 2, 3]],
+        'ret': [2, 1, 0]}}},
 ]
 
 
